@@ -109,6 +109,7 @@ class GuardedSet:
                         continue
             it.exec_block(node.orelse, env)
             return None
+        bitsum = {}  # name -> (value we produced, base int, {bit position: guard})
         for g, v in self.pairs:
             if g is False:
                 continue
@@ -125,7 +126,13 @@ class GuardedSet:
                             merged[n] = after
                             continue
                         step = _const_step(before[n], after)
-                        if step is not None:
+                        bs = _bitsum_step(bitsum.get(n), before[n], step, g)
+                        if bs is not None:
+                            # a sum of distinct powers of two, one per guard, *is* the bit-vector whose
+                            # bit p is the guard of 2^p: same value, but bit tests on it need no arithmetic
+                            merged[n] = bs[0]
+                            bitsum[n] = bs
+                        elif step is not None:
                             # the body adds a constant: before + step * [g], with [g] a 0/1 integer
                             # (linear arithmetic instead of a tower of if-then-else terms)
                             merged[n] = before[n] + step * self.indicator(it, g)
@@ -151,12 +158,45 @@ class GuardedSet:
         return None
 
 
+def _bitsum_step(state, before, step, g):
+    """before + step * [g] as a bit-vector, when before is a non-negative constant plus distinct powers
+    of two each guarded by a condition (state, produced by the previous steps) and step is a further
+    power of two whose bit is still clear.  Returns (SBV value, base, bits) or None."""
+    import z3
+    from .sym import SBV
+    if step is None or step <= 0 or step & (step - 1):
+        return None
+    pos = step.bit_length() - 1
+    if state is not None and state[0] is before:
+        base, bits = state[1], dict(state[2])
+    elif isinstance(before, int) and not isinstance(before, bool) and before >= 0:
+        base, bits = before, {}
+    else:
+        return None
+    if pos in bits or (base >> pos) & 1:
+        return None
+    bits[pos] = g
+    width = max(max(bits) + 1, base.bit_length(), 1)
+    parts = []
+    for q in range(width - 1, -1, -1):
+        if q in bits:
+            parts.append(z3.If(sym.tobool_t(bits[q]), z3.BitVecVal(1, 1), z3.BitVecVal(0, 1)))
+        else:
+            parts.append(z3.BitVecVal((base >> q) & 1, 1))
+    t = parts[0] if len(parts) == 1 else z3.Concat(*parts)
+    return SBV(z3.simplify(t)), base, bits
+
+
 def _const_step(before, after):
     """after - before when both are integers and the difference is a concrete constant, else None."""
     import z3
-    from .sym import SInt
+    from .sym import SInt, SBV
     if isinstance(before, bool) or isinstance(after, bool):
         return None
+    if isinstance(before, SBV):
+        before = before.to_int()
+    if isinstance(after, SBV):
+        after = after.to_int()
     if not isinstance(before, (int, SInt)) or not isinstance(after, (int, SInt)):
         return None
     d = z3.simplify(sym.int_t(after) - sym.int_t(before))
